@@ -174,7 +174,7 @@ class Snippet:
         self.text = mark(attrs.rstrip() + '\n') + self.text
         self.splices += 1
 
-    def loop_spec(self, ordinal, spec):
+    def loop_spec(self, ordinal, spec, body_prologue=None):
         """Splice invariant/decreases before the body of the ordinal-th loop (while/loop/for)
         counting in source order in the *base* text."""
         self._freeze()
@@ -188,7 +188,11 @@ class Snippet:
             if mask[i] in '([':
                 i = match_close(mask, i)
             i += 1
-        self.text = clean[:i] + mark('\n' + spec.strip() + '\n') + clean[i:]
+        if body_prologue:
+            # proof text as the first statement of the loop body (additions only, marked)
+            self.text = clean[:i] + mark('\n' + spec.strip() + '\n') + clean[i] + mark('\n' + body_prologue.strip() + '\n') + clean[i + 1:]
+        else:
+            self.text = clean[:i] + mark('\n' + spec.strip() + '\n') + clean[i:]
         self.splices += 1
 
     def insert_at(self, anchor_re, text, where='before', occurrence=0):
